@@ -54,34 +54,50 @@ pub fn region_index(addr: u32) -> Option<usize> {
     REGIONS.iter().position(|&(lo, hi, _)| addr >= lo && addr <= hi)
 }
 
+/// the emulator's backing store of a region, clipped to the region's architectural size (a buffer allocated a
+/// little larger than the region is the emulator's own business and must not upset the machinery)
 pub fn region_slice(bus: &Bus, idx: usize) -> &[u8] {
-    match idx {
+    let s = match idx {
         0 => &bus.exception_handling_vector[..],
         1 => &bus.dram[..],
         2 => &bus.io_registrs1[..],
         3 => &bus.memory[..],
         _ => &bus.io_registrs2[..],
-    }
+    };
+    let n = (REGIONS[idx.min(4)].1 - REGIONS[idx.min(4)].0 + 1) as usize;
+    &s[..n.min(s.len())]
+}
+fn fill_region(dst: &mut [u8], src: &[u8]) {
+    let n = dst.len().min(src.len());
+    dst[..n].copy_from_slice(&src[..n]);
 }
 pub fn region_slice_mut(bus: &mut Bus, idx: usize) -> &mut [u8] {
-    match idx {
+    let s = match idx {
         0 => &mut bus.exception_handling_vector[..],
         1 => &mut bus.dram[..],
         2 => &mut bus.io_registrs1[..],
         3 => &mut bus.memory[..],
         _ => &mut bus.io_registrs2[..],
-    }
+    };
+    let n = (REGIONS[idx.min(4)].1 - REGIONS[idx.min(4)].0 + 1) as usize;
+    let m = n.min(s.len());
+    &mut s[..m]
 }
 
 pub fn raw_get(bus: &Bus, addr: u32) -> Option<u8> {
     let i = region_index(addr)?;
-    Some(region_slice(bus, i)[(addr - REGIONS[i].0) as usize])
+    region_slice(bus, i).get((addr - REGIONS[i].0) as usize).copied()
 }
 pub fn raw_set(bus: &mut Bus, addr: u32, v: u8) -> bool {
     match region_index(addr) {
         Some(i) => {
-            region_slice_mut(bus, i)[(addr - REGIONS[i].0) as usize] = v;
-            true
+            match region_slice_mut(bus, i).get_mut((addr - REGIONS[i].0) as usize) {
+                Some(b) => {
+                    *b = v;
+                    true
+                }
+                None => false,
+            }
         }
         None => false,
     }
@@ -187,7 +203,7 @@ impl Emu {
         *crate::setting::ENABLE_PRINT_OPCODE.write().unwrap() = false;
         let mut cpu = Cpu::new();
         for (i, (_, bytes)) in base.regions.iter().enumerate() {
-            region_slice_mut(&mut cpu.bus, i).copy_from_slice(bytes);
+            fill_region(region_slice_mut(&mut cpu.bus, i), bytes);
         }
         let (out_tx, out_rx) = channel::<String>();
         let (in_tx, in_rx) = channel::<String>();
@@ -219,7 +235,7 @@ impl Emu {
         let cfg = self.bus_cfg();
         for idx in [2usize, 4] {
             let bytes = self.base.regions[idx].1.clone();
-            region_slice_mut(&mut self.cpu.bus, idx).copy_from_slice(&bytes);
+            fill_region(region_slice_mut(&mut self.cpu.bus, idx), &bytes);
         }
         // the bus-controller registers are only ever changed through the write path
         self.poke_bus_cfg(&cfg);
@@ -347,9 +363,9 @@ impl Emu {
             self.diff_region(1, Some(dram_windows), &mut out);
             // every address the bus was asked to write since the log was cleared
             let (lo, ref basebytes) = self.base.regions[1];
-            let cur = &self.cpu.bus.dram;
+            let cur = region_slice(&self.cpu.bus, 1);
             for &a in &self.cpu.bus.verif_write_log {
-                if a >= lo && ((a - lo) as usize) < cur.len() {
+                if a >= lo && ((a - lo) as usize) < cur.len().min(basebytes.len()) {
                     let k = (a - lo) as usize;
                     if cur[k] != basebytes[k] {
                         out.insert(a, cur[k]);
@@ -364,7 +380,9 @@ impl Emu {
     }
 
     pub fn dram_equals_baseline(&self) -> bool {
-        self.cpu.bus.dram[..] == self.base.regions[1].1[..]
+        let cur = region_slice(&self.cpu.bus, 1);
+        let n = cur.len().min(self.base.regions[1].1.len());
+        cur[..n] == self.base.regions[1].1[..n]
     }
 
     /// Set one byte of the pre-image of a case. Plain on-chip I/O registers go through the bus write path (as
@@ -403,7 +421,7 @@ impl Emu {
     pub fn restore_all(&mut self) {
         let cfg = self.bus_cfg();
         for (i, (_, bytes)) in self.base.clone().regions.iter().enumerate() {
-            region_slice_mut(&mut self.cpu.bus, i).copy_from_slice(bytes);
+            fill_region(region_slice_mut(&mut self.cpu.bus, i), bytes);
         }
         self.poke_bus_cfg(&cfg);
         self.set_bus_cfg(&BusCfg::ZERO);
